@@ -816,7 +816,13 @@ fn operation<'s>(input: &mut &'s str) -> PResult<Operation, SemverParseError<&'s
 }
 
 fn partial<'s>(input: &mut &'s str) -> PResult<Option<BoundSet>, SemverParseError<&'s str>> {
-    Parser::map(partial_version, |partial| match partial {
+    Parser::map(partial_version, partial_bounds)
+        .context("plain version range (ex: 1.2)")
+        .parse_next(input)
+}
+
+fn partial_bounds(partial: Partial) -> Option<BoundSet> {
+    match partial {
         Partial { major: None, .. } => BoundSet::at_least(Predicate::Including((0, 0, 0).into())),
         Partial {
             major: Some(major),
@@ -848,9 +854,7 @@ fn partial<'s>(input: &mut &'s str) -> PResult<Option<BoundSet>, SemverParseErro
             })),
         ),
         partial => BoundSet::exact(partial.into()),
-    })
-    .context("plain version range (ex: 1.2)")
-    .parse_next(input)
+    }
 }
 
 #[derive(Debug, Clone)]
@@ -1073,6 +1077,11 @@ fn hyphen<'s>(input: &mut &'s str) -> PResult<Option<BoundSet>, SemverParseError
         let _ = literal("-").parse_next(input)?;
         let _ = space1(input)?;
         let upper = partial_version(input)?;
+        let lower = match lower {
+            Some(lower) => lower,
+            // Without a lower operand (` - 10`) the range is just the partial `10`.
+            None => return Ok(partial_bounds(upper)),
+        };
         let upper = match upper {
             Partial {
                 major: None,
@@ -1112,15 +1121,10 @@ fn hyphen<'s>(input: &mut &'s str) -> PResult<Option<BoundSet>, SemverParseError
             }),
             partial => Predicate::Including(partial.into()),
         };
-        let bounds = if let Some(lower) = lower {
-            BoundSet::new(
-                Bound::Lower(Predicate::Including(lower.into())),
-                Bound::Upper(upper),
-            )
-        } else {
-            BoundSet::at_most(upper)
-        };
-        Ok(bounds)
+        Ok(BoundSet::new(
+            Bound::Lower(Predicate::Including(lower.into())),
+            Bound::Upper(upper),
+        ))
     }
 
     parser
